@@ -119,7 +119,8 @@ func (p *wat2X64Worker) buildFunc_body(w io.Writer, fn *ast.Func) error {
 
 	// 如果走栈返回
 	// 先将调用者传入的返回值栈地址寄存器参数备份
-	if len(fnNative.Type.Return) > 1 && fnNative.Type.Return[1].Reg == 0 {
+	// 只有 Windows ABI 在 [rbp+16] 处为 rcx 预留了位置; Unix ABI 下那里是第一个走栈的参数
+	if len(fnNative.Type.Return) > 1 && fnNative.Type.Return[1].Reg == 0 && p.cpuType == abi.X64Windows {
 		p.gasCommentInFunc(&bufHeader, "将返回地址备份到栈")
 		fmt.Fprintf(&bufHeader, "    mov qword ptr [rbp%+d], rcx # return address\n", 2*8)
 		fmt.Fprintln(&bufHeader)
@@ -994,10 +995,10 @@ func (p *wat2X64Worker) buildFunc_ins(
 						k,
 					)
 				} else {
-					fmt.Fprintf(w, "    movss xmm4, dword ptr [rbp%+d]\n",
+					fmt.Fprintf(w, "    mov eax, dword ptr [rbp%+d]\n",
 						p.fnWasmR0Base-argList[k]*8-8,
 					)
-					fmt.Fprintf(w, "    movss dword ptr [rsp%+d], xmm4\n",
+					fmt.Fprintf(w, "    mov dword ptr [rsp%+d], eax\n",
 						arg.RSPOff,
 					)
 				}
@@ -1009,10 +1010,10 @@ func (p *wat2X64Worker) buildFunc_ins(
 						k,
 					)
 				} else {
-					fmt.Fprintf(w, "    movsd xmm4, qword ptr [rbp%+d]\n",
+					fmt.Fprintf(w, "    mov rax, qword ptr [rbp%+d]\n",
 						p.fnWasmR0Base-argList[k]*8-8,
 					)
-					fmt.Fprintf(w, "    movsd qword ptr [rsp%+d], xmm4\n",
+					fmt.Fprintf(w, "    mov qword ptr [rsp%+d], rax\n",
 						arg.RSPOff,
 					)
 				}
@@ -1182,7 +1183,7 @@ func (p *wat2X64Worker) buildFunc_ins(
 					)
 				} else {
 					fmt.Fprintf(w, "    mov rax, qword ptr [rbp%+d]\n",
-						p.fnWasmR0Base+argList[k]*8-8,
+						p.fnWasmR0Base-argList[k]*8-8,
 					)
 					fmt.Fprintf(w, "    mov qword ptr [rsp%+d], rax\n",
 						arg.RSPOff,
@@ -1196,10 +1197,10 @@ func (p *wat2X64Worker) buildFunc_ins(
 						k,
 					)
 				} else {
-					fmt.Fprintf(w, "    movss xmm4, dword ptr [rbp%+d]\n",
+					fmt.Fprintf(w, "    mov eax, dword ptr [rbp%+d]\n",
 						p.fnWasmR0Base-argList[k]*8-8,
 					)
-					fmt.Fprintf(w, "    movss dword ptr [rsp%+d], xmm4\n",
+					fmt.Fprintf(w, "    mov dword ptr [rsp%+d], eax\n",
 						arg.RSPOff,
 					)
 				}
@@ -1211,10 +1212,10 @@ func (p *wat2X64Worker) buildFunc_ins(
 						k,
 					)
 				} else {
-					fmt.Fprintf(w, "    movsd xmm4, qword ptr [rbp%+d]\n",
+					fmt.Fprintf(w, "    mov rax, qword ptr [rbp%+d]\n",
 						p.fnWasmR0Base-argList[k]*8-8,
 					)
-					fmt.Fprintf(w, "    movsd qword ptr [rsp%+d], xmm4\n",
+					fmt.Fprintf(w, "    mov qword ptr [rsp%+d], rax\n",
 						arg.RSPOff,
 					)
 				}
